@@ -13,7 +13,7 @@ class PrintCheck(object):
     world = "PRINT"
 
     RUNS = {"C01": (16000, 600000), "C02": (24000, 900000), "C03": (20000, 700000), "C04": (30000, 1000000),
-            "C05": (30000, 1000000), "C06": (30000, 1000000), "C07": (6000, 200000), "C14": (20000, 700000),
+            "C05": (30000, 1000000), "C06": (30000, 1000000), "C07": (5000, 150000), "C14": (20000, 700000),
             "C15": (30000, 1000000)}
 
     def __init__(self, prop, tune, rule):
@@ -49,6 +49,12 @@ def hash_str(s):
 def tune_c01(rng, k):
     k["w"]["region_add"] = max(k["w"]["region_add"], 3)
     k["nregions"] = rng.choice([1, 1, 2, 3])
+    if rng.random() < 0.4:
+        k["w"]["at_switch"] = 1.5          # the dialect of C01 includes @-commands
+        k["after_enable_moves"] = True
+    if rng.random() < 0.35:
+        k["settings"] = {"enteringExcludedRegionGcode": gen.rand_script(rng, "ENTER"),
+                         "exitingExcludedRegionGcode": gen.rand_script(rng, "EXIT")}
     if rng.random() < 0.4:
         k["wipe"] = 0.3
     if rng.random() < 0.3:
@@ -116,6 +122,7 @@ def tune_c07(rng, k):
     k["w"]["mode"] = 3
     k["tiny_e"] = 0.3
     k["tiny_z"] = 0.4
+    k["huge"] = rng.choice([0, 0, 0.02])
     k["p_special"] = 0.2
     k["axes_w"] = [35, 12, 12, 21, 20]
     k["nops"] = rng.choice([30, 60, 120, 250, 400])
@@ -143,6 +150,10 @@ def tune_c06(rng, k):
     k["w"]["mode"] = 0
     k["w"]["units"] = 0
     k["w"]["arc"] = 0
+    if rng.random() < 0.4:
+        k["wipe"] = 0.3
+        k["retract"] = "e"
+        k["w"]["retract"] = 12
 
 
 def tune_c14(rng, k):
@@ -166,6 +177,9 @@ def tune_c14(rng, k):
         k["settings"] = dict(k.get("settings") or {}, exitingExcludedRegionGcode=gen.rand_script(rng, "EXIT"))
     k["w"]["g92xyz"] = 0
     k["aim_w"] = [45, 5, 10, 40]
+    k["p_foreign_at"] = 0.15
+    if rng.random() < 0.4:
+        k["w"]["at_config"] = 1.0      # the configured actions change mid-run
 
 
 def tune_c15(rng, k):
@@ -185,6 +199,11 @@ def tune_c15(rng, k):
         k["w"]["other"] = 20
     k["w"]["g92xyz"] = 0
     k["aim_w"] = [45, 5, 10, 40]
+    k["p_abort"] = 0.3
+    if rng.random() < 0.5:
+        k["w"]["settings_change"] = 1.5
+        k["settings_anytime"] = True
+        k["between_settings"] = 0.5
 
 
 RULE_STATE = ("distinct (abstract filter state, op kind) pairs reached, abstract state = (print active, "
@@ -341,6 +360,9 @@ class RestartCheck(object):
         k["prints"] = rng.choice([1, 2])
         k["wipe"] = rng.choice([0, 0.3, 0.6])
         k["double_retract"] = rng.choice([0, 0.3])
+        k["settings_anytime"] = True
+        k["between_settings"] = 0.4
+        k["w"]["at_config"] = 0.5
         conf = gen.rand_deferral_config(rng)
         k["settings"] = {"extendedExcludeGcodes": conf, "exitingExcludedRegionGcode": gen.rand_script(rng, "EXIT"),
                          "enteringExcludedRegionGcode": gen.rand_script(rng, "ENTER")}
@@ -352,6 +374,10 @@ class RestartCheck(object):
         # bus misbehave a little before that
         cut = rng.randrange(1, len(ops1) + 1) if rng.random() < 0.7 else len(ops1)
         ops1 = ops1[:cut]
+        if rng.random() < 0.3:
+            # settings saved after the history stopped (e.g. while idle after an aborted job)
+            ops1.append({"op": "settings", "set": {rng.choice(["enteringExcludedRegionGcode",
+                         "exitingExcludedRegionGcode"]): gen.rand_script(rng, rng.choice(["ENTER", "EXIT"]))}})
         for _ in range(rng.choice([0, 0, 1, 2])):
             pos = rng.randrange(0, len(ops1) + 1)
             ops1.insert(pos, rng.choice([{"op": "event", "name": rng.choice(
@@ -426,6 +452,13 @@ class TwinCheck(object):
         k["keep_zeros"] = False
         k["c08"] = True
         kind = rng.choice(["inch", "rel", "translate", "translate", "inch", "rel", "g92"])
+        if kind in ("rel", "translate") and rng.random() < 0.5:
+            # arcs only where the sampling resolution is the same in both encodings (1 mm), and only arcs that
+            # reach clearly into a region (> 1 mm) or stay clearly out of all of them (> 0.5 mm)
+            k["w"]["arc"] = 6
+            k["arc_margin"] = True
+        k["numstyle"] = None
+        k["compact"] = False
         cfg, ops = gen.gen_print_schedule(rng, "C08", k)
         enc = {"kind": kind, "from": rng.randrange(0, max(1, len(ops)))}
         if kind == "g92":
@@ -450,7 +483,7 @@ class TwinCheck(object):
                 enc["vec"] = vec
                 enc["from"] = first_xy
             else:
-                enc["kind"] = "inch"
+                enc["kind"] = "rel" if k.get("arc_margin") else "inch"
         cfg["encoding"] = enc
         return cfg, ops
 
